@@ -34,7 +34,7 @@ def ensure_tick_budget():
                 return orig(*args, **kwargs)
             except BudgetExceeded as e:
                 _installed["hits"] += 1
-                raise TickBudgetExceeded("TimeScale.%s: %s" % (name, e))
+                raise TickBudgetExceeded("%s%s: %s" % ("interval." if name == "range" else "TimeScale.", name, e))
             finally:
                 st["depth"] = 0
 
@@ -51,6 +51,13 @@ def ensure_tick_budget():
         for nm in ("ticks", "nice"):
             if nm in cls.__dict__:
                 p.wrap(cls, nm, boundary(nm))
+        # a direct interval.range() call is a boundary of its own (seeded/C18o: a step that stops advancing inside a
+        # skipped hour makes the enumeration loop forever outside any TimeScale call); wrapped at class level so that it
+        # chains with the calendar monitor's class-level hooks in either order
+        ivcls = set(type(iv) for iv in getattr(D, "d3_time", {}).values() if hasattr(iv, "_step"))
+        for c in ivcls:
+            if "range" in c.__dict__:
+                p.wrap(c, "range", boundary("range"))
         seen = set()
         for iv in list(getattr(D, "d3_time", {}).values()):
             if hasattr(iv, "_step") and id(iv) not in seen:
